@@ -242,6 +242,10 @@ func c17Transition(p *run.Part) func(w *seqx.World, pre *seqx.Pre, op seqx.Op, s
 		if op.K == "app" || op.K == "pub" {
 			for k := first + 1; k <= nAdds; k++ {
 				crashOne(p, w.Cfg, c, k)
+				transientOne(p, w.Cfg, c, k)
+			}
+			if op.Pin {
+				transientOne(p, w.Cfg, c, pinFailure)
 			}
 		}
 	}
@@ -313,6 +317,79 @@ func crashOne(p *run.Part, cfg *seqx.Config, c seqx.Case, k int) {
 	p.Add(0, 0, 1, 0)
 }
 
+// transientOne re-runs the history with exactly the k-th Add failing (a write error the process survives), and lets
+// the same replica go on: append, publish. At every step the store stays causally closed and what is returned loads
+// to the replica's state of that moment.
+func transientOne(p *run.Part, cfg *seqx.Config, c seqx.Case, k int) {
+	path := seqx.PathString(c.Path)
+	w := seqx.NewWorld(cfg)
+	for _, o := range c.Path[:len(c.Path)-1] {
+		w.Apply(o)
+	}
+	calls := 0
+	for _, cl := range w.St.Calls {
+		if cl.Op == "add" {
+			calls++
+		}
+	}
+	op := c.Path[len(c.Path)-1]
+	cc := crashCase{c, -k}
+	desc := fmt.Sprintf("after %s with block write #%d failing once", path, k)
+	if k == pinFailure {
+		w.St.FailPinOnce = true
+		desc = fmt.Sprintf("after %s with the pin request of the last append failing", path)
+	} else {
+		w.St.FailAddOnly = calls + (k - len(w.St.Adds))
+	}
+	steps := []seqx.Op{op, {K: "app", A: op.A}, {K: "pub", A: op.A}}
+	for i, o := range steps {
+		st := w.Apply(o)
+		p.Add(0, 1, 0, 1)
+		if i > 0 {
+			desc += ", then " + o.String()
+		}
+		if st.Panic != "" {
+			p.Violate("crash", "C17:write-error-panic:"+o.K+":"+run.PanicSite(st.Panic), fmt.Sprintf("%s: panicked: %s", desc, st.PanV), cc)
+			return
+		}
+		if _, missing, ok := closedAt(w.St, len(w.St.Adds)); !ok {
+			p.Violate("crash", "C17:write-error-store-not-closed", fmt.Sprintf("%s: the store holds a block whose link %s is missing", desc, missing), cc)
+			return
+		}
+		l := w.Logs[o.A]
+		// whatever the operation answered, the replica is a well-formed log: its heads are its unreferenced entries
+		if hs := sortedStrings(hashesOf(l.Heads().Slice())); !eqStrings(hs, unreferenced(l.GetEntries().Slice())) {
+			p.Violate("crash", "C17:write-error-heads-not-the-unreferenced-entries", fmt.Sprintf("%s: heads %s, unreferenced entries %s", desc, short(w, hs), short(w, unreferenced(l.GetEntries().Slice()))), cc)
+			return
+		}
+		if st.Err != nil {
+			continue
+		}
+		var got *ipfslog.IPFSLog
+		var err error
+		switch o.K {
+		case "app":
+			got, err = ipfslog.NewFromEntryHash(world.Ctx, w.St.View(len(w.St.Adds)), world.IDs[0], st.Entry.GetHash(), &ipfslog.LogOptions{ID: "X"}, &ipfslog.FetchOptions{})
+		case "pub":
+			got, err = ipfslog.NewFromMultihash(world.Ctx, w.St.View(len(w.St.Adds)), world.IDs[0], st.Cid, &ipfslog.LogOptions{}, &ipfslog.FetchOptions{})
+		default:
+			continue
+		}
+		if err != nil {
+			p.Violate("crash", "C17:write-error-returned-hash-does-not-load:"+o.K, fmt.Sprintf("%s: what it returned does not load: %v", desc, err), cc)
+			return
+		}
+		if !eqStrings(sortedStrings(hashesOf(got.GetEntries().Slice())), sortedStrings(hashesOf(l.GetEntries().Slice()))) {
+			p.Violate("crash", "C17:write-error-loaded-state-differs:"+o.K, fmt.Sprintf("%s: what it returned loads to %d entries, the replica holds %d", desc, got.Len(), l.Len()), cc)
+			return
+		}
+	}
+	p.Add(0, 0, 1, 0)
+}
+
+// pinFailure as k: not a block write but the pin request of a pinned append fails
+const pinFailure = 1 << 20
+
 type crashCase struct {
 	seqx.Case
 	K int `json:"k"`
@@ -347,7 +424,7 @@ var cfgDup = &seqx.Config{Name: "same-identity-deny-dup", Writers: []int{0, 0}, 
 func init() {
 	Configs[cfgDup.Name] = cfgDup
 	register(&Check{ID: "C17", Run: func(p *run.Part, tier string) {
-		p.Rule = "states are canonical keys of two replicas plus the number of publications; every block write of every transition is a crash point; non-trivial = states with at least one published manifest and >= 3 blocks"
+		p.Rule = "states are canonical keys of two replicas plus the number of publications; every block write of every transition is a crash point and, separately, a write that fails once while the replica goes on; non-trivial = states with at least one published manifest and >= 3 blocks"
 		p.Assume("two replicas on one store, depth as in extra.searches; the store double applies writes atomically and in call order (torn block writes are below the abstraction of Dag().Add); default codec")
 		runSearches(p, c17Searches(p, tier))
 	}, Replay: func(p *run.Part, check string, raw []byte) {
@@ -355,6 +432,10 @@ func init() {
 			var cc crashCase
 			if err := jsonUnmarshal(raw, &cc); err != nil {
 				panic(err)
+			}
+			if cc.K < 0 { // a negative k marks the transient-error variant
+				transientOne(p, Configs[cc.Config], cc.Case, -cc.K)
+				return
 			}
 			crashOne(p, Configs[cc.Config], cc.Case, cc.K)
 			return
